@@ -31,6 +31,17 @@ tie    : T  translate/t_eig.py regenerates coq/gen/EigSelect.v (which eigenpairs
               the exact covariance stream stays exact (tol 0) at every scale;
             * at BOUNDARY SIZES (N in 255, 256, 257, 512; D in 8, 9, 16, 17 on the covariance loop) and SHAPES
               (D = 1, D > N, N = 2, a zero-variance feature, a feature that is identically zero).
+         Wave 3 — data with a large common OFFSET relative to its spread (offset / spread 2^20 ~ 1e6, 2^30 ~ 1e9,
+            2^40 ~ 1e12, and mixed per-feature offsets) on the covariance streams and through PCA.  Every output of
+            PCA is offset-invariant (theorem C06_offset_invariant), so "is the sample covariance / the principal
+            subspace to rounding error" is judged RELATIVE TO THE SPREAD about the mean, never to |x|:
+            covariance entries within 8 (N + 4) 2^-53 * max_ab 1/N sum_i |x_ia - m_a| |x_ib - m_b| (the forward-error
+            bound of accumulating centred outer products) plus the square of the rounding error of the computed mean
+            ((N + 1) 2^-53 max|x|; zero on the exact stream), PCA in natural units of the exact covariance.  On the
+            exact stream (dyadic grid, N a power of two: the mean, x - mean, every product and every partial sum are
+            exactly representable) the centred accumulation of the current code (fix F49) is still EXACT == model,
+            whereas the expanded form E[x x^T] - mean mean^T (equal over every exact field: theorem
+            C06_cov_centred_and_expanded) forms x_a x_b ~ 2^80 and loses everything.
 search : when an obligation or the correspondence breaks, a larger budget of strongly correlated data sets
          is run through the same decision procedures.
 """
@@ -43,7 +54,8 @@ from fractions import Fraction
 
 import vlib
 from checks.c07 import (crash_text, fr_hex, parse_fr, hexfloat, flat, mat_of, scale_tol, maxabs, gen_matrix, dyadic,
-                        case_json, run_model_lines)
+                        case_json, run_model_lines, OFFSET_EXPS, offset_plan, offset_style, is_offset_style,
+                        UNIT_ROUNDOFF)
 
 PROPERTY = "C06"
 
@@ -68,6 +80,10 @@ TRUSTED = [
     "uniqueness of eigenvectors up to sign for simple eigenvalues (PCA = KPCA = MDS up to sign) is classical "
     "mathematics, cited; the agreement is tested, not proved",
     "g++ ASan/UBSan/_GLIBCXX_ASSERTIONS as the memory-safety observer",
+    "large-offset data: the tolerance is the standard forward-error bound of accumulating centred outer products in "
+    "binary64, relative to the spread about the mean, plus the square of the bound (N + 1) 2^-53 max|x| on the error "
+    "of the computed mean; the rounding model behind it is not formalised (theorem C06_offset_invariant is what makes "
+    "the spread the right yardstick)",
     "scaled copies: outputs of a run on 2^k X are multiplied by the exact factors 2^-k / 2^-2k in Python (Fraction "
     "arithmetic) before the decision procedures run; justified by theorem C06_scale_equivariant",
 ]
@@ -118,6 +134,82 @@ def gen_rank_wide(rng, N, D, r):
         a = [Fraction(rng.randint(-6, 6)) * w[q % 3] for q in range(r)]
         X.append([mean[i] + sum(a[q] * B[q][i] for q in range(r)) for i in range(D)])
     return X
+
+
+def gen_offset_data(rng, N, D, kind, exact, n_head=3):
+    """x = offset + spread, spread correlated across features, |spread| <= 3/4.
+    exact: every coordinate on a dyadic grid fine enough to be interesting and coarse enough that, with N = 2^n
+    (n <= n_head) samples, the sums for the mean, the mean itself, x - mean, the products of two centred
+    coordinates and their partial sums are all exactly representable in binary64:
+       grid 2^-g, g = min(17, 49 - n_head - E) - 1;  |x| < 2^(E+3): E + 3 + g + n <= 52;
+       centred coordinates on the grid 2^-(g+n), |.| <= 2; products on 2^-(2g+2n), partial sums below 2^(2+n):
+       2 g + 3 n + 3 <= 53.
+    not exact: arbitrary doubles around the same offsets."""
+    plan = offset_plan(rng, D, kind)
+    exps = [e for _, e in plan if e is not None]
+    g = min([17] + [49 - n_head - e for e in exps]) - 1
+    X = []
+    for _ in range(N):
+        if exact:
+            z = [Fraction(rng.randint(-(1 << (g - 1)), 1 << (g - 1)), 1 << g) for _ in range(D)]     # [-1/2, 1/2]
+            sp = [z[0]] + [z[t] + z[0] / 2 for t in range(1, D)]                                      # grid 2^-(g+1)
+            X.append([plan[t][0] + sp[t] for t in range(D)])
+        else:
+            z = [rng.uniform(-0.5, 0.5) for _ in range(D)]
+            sp = [z[0]] + [z[t] + z[0] / 2 for t in range(1, D)]
+            X.append([Fraction(float(plan[t][0]) + sp[t]) for t in range(D)])
+    return X
+
+
+def gen_offset_cov(rng, n_exact, n_tol):
+    cases = []
+    kinds = OFFSET_EXPS + ["mixed"]
+    for j in range(n_exact):
+        kind = kinds[j % len(kinds)]
+        D = rng.choice([1, 2, 3, 4])
+        N = rng.choice([2, 4, 8])
+        cases.append({"kind": "COV", "D": D, "N": N, "X": gen_offset_data(rng, N, D, kind, True),
+                      "style": offset_style(kind), "exact": True})
+    for j in range(n_tol):
+        kind = kinds[j % len(kinds)]
+        D = rng.choice([1, 2, 3, 5])
+        N = rng.choice([3, 5, 7, 10, 25])
+        cases.append({"kind": "COV", "D": D, "N": N, "X": gen_offset_data(rng, N, D, kind, False),
+                      "style": offset_style(kind) + "-generic", "exact": False})
+    return cases
+
+
+def gen_offset_emb(rng, n):
+    cases = []
+    kinds = OFFSET_EXPS + ["mixed"]
+    for j in range(n):
+        kind = kinds[j % len(kinds)]
+        exact = j % 2 == 0
+        D = rng.choice([2, 3, 4])
+        N = rng.choice([4, 8]) if exact else rng.choice([5, 7, 12, 20])
+        d = rng.randint(1, max(1, min(D, N - 1)))
+        cases.append({"kind": "EMB", "solver": "dense", "N": N, "D": D, "d": d,
+                      "X": gen_offset_data(rng, N, D, kind, exact),
+                      "style": offset_style(kind) + ("" if exact else "-generic"), "agree": False})
+    return cases
+
+
+def spread_scale(X):
+    """max_ab 1/N sum_i |x_ia - m_a| |x_ib - m_b| for the exact mean m: the magnitude of the covariance's OWN
+    condition (what the rounding error of accumulating centred outer products is relative to)"""
+    N, D = len(X), len(X[0])
+    m = [sum(row[t] for row in X) / N for t in range(D)]
+    dev = [[abs(row[t] - m[t]) for t in range(D)] for row in X]
+    return max(sum(dev[i][a] * dev[i][b] for i in range(N)) / N for a in range(D) for b in range(D))
+
+
+def mean_error_sq(X, exact_mean):
+    """square of the bound (N + 1) 2^-53 max|x| on the rounding error of the computed mean: with a mean off by
+    delta the centred second moment is C + delta delta^T exactly"""
+    if exact_mean:
+        return Fraction(0)
+    N = len(X)
+    return ((N + 1) * UNIT_ROUNDOFF * maxabs(X)) ** 2
 
 
 def scaled_copy(c, k):
@@ -535,6 +627,8 @@ def evaluate(ctx, exe, mexe, cases, st, record=True):
                 mowner.append((i, "covold"))
                 mlines.append("MEAN %d %d %s" % (c["D"], c["N"], fnums(flat(c["X"]))))
                 mowner.append((i, "mean"))
+                mlines.append("COVEXP %d %d %s" % (c["D"], c["N"], fnums(flat(c["X"]))))
+                mowner.append((i, "covexp"))
         elif c["kind"] == "TRI":
             mlines.append("SEEN %s %d %s" % (c["solver"], c["D"], fnums(flat(c["M"]))))
             mowner.append((i, "seen"))
@@ -592,9 +686,19 @@ def evaluate(ctx, exe, mexe, cases, st, record=True):
             if Cm is None:
                 mism(i, "model answers %r on an input the implementation accepted" % model[(i, "cov")][:60])
                 continue
+            if model.get((i, "covexp")) != model[(i, "cov")]:
+                # theorem C06_cov_centred_and_expanded observed: the centred model (current code) and the expanded one
+                # (shipped before fix F49) are the same rational matrix
+                ctx.unshown("the extracted centred and expanded covariance models disagree on a case (N = %d)" % N)
             Cm = mscale(Cm, u * u)
             Cold = mscale(Cold, u * u) if Cold is not None else None
             tol = Fraction(0) if c["exact"] else TOL_DENSE * (1 + scale_tol(Xn) ** 2)
+            offset_txt = ""
+            if is_offset_style(c):
+                # relative to the SPREAD of the data (the output's own condition), never to |x|^2
+                tol = 8 * (N + 4) * UNIT_ROUNDOFF * spread_scale(Xn) + mean_error_sq(Xn, c["exact"])
+                offset_txt = (" (large-offset data: tolerance %.3g relative to the spread about the mean, max|x| = %.3g)"
+                              % (float(tol), float(maxabs(Xn))))
             xs = fnums(flat(Xn))
             cs = fnums(flat(cov[2]))
             old = " [the returned matrix equals the model of the code BEFORE fix F8: only the upper triangle is filled]" \
@@ -604,10 +708,10 @@ def evaluate(ctx, exe, mexe, cases, st, record=True):
             spec_lines.append("SCOVD %d %d %s %s %s" % (N, D, fr_hex(tol), xs, cs))
             spec_owner.append((i, "what the DENSE eigensolver front-end sees of the matrix returned by "
                                   "compute_covariance_matrix ((M+M^T)/2, lower triangle) is not the sample "
-                                  "covariance of the data" + old, "violation"))
+                                  "covariance of the data" + old + offset_txt, "violation"))
             spec_lines.append("SCOVR %d %d %s %s %s" % (N, D, fr_hex(tol), xs, cs))
             spec_owner.append((i, "what the RANDOMIZED front-end sees of the returned covariance matrix (upper "
-                                  "triangle) is not the sample covariance of the data" + old, "violation"))
+                                  "triangle) is not the sample covariance of the data" + old + offset_txt, "violation"))
             st.exact_compared += 1
             mm = model[(i, "mean")].split()
             mvals = [parse_fr(t) * u for t in mm[1:]] if mm and mm[0] == "OK" else None
@@ -733,6 +837,10 @@ def evaluate(ctx, exe, mexe, cases, st, record=True):
         tolr = TOL_RAND if c["solver"] == "randomized" else TOL_DENSE
         cscale = 1 + scale_tol(Cm)
         tol = tolr * cscale * D
+        if is_offset_style(c):
+            # a computed mean off by delta turns the centred second moment into C + delta delta^T (natural units)
+            pow2 = N & (N - 1) == 0
+            tol += D * mean_error_sq(mscale(c["X"], units.get(i, unit_of(c))), pow2 and not c["style"].endswith("-generic"))
         top_sorted = ev[-d:]
         # the property does not fix the ORDER of the columns: pair the d largest reference eigenvalues
         # with the columns by the rank of each column's Rayleigh quotient p_c^T C p_c
@@ -966,9 +1074,12 @@ def build_cases(ctx, quick):
     cov = gen_cov_cases(rng, 40 if quick else 400, 10 if quick else 100)
     cov += gen_boundary_cov(rng, BOUNDARY_N_QUICK if quick else BOUNDARY_N_THOROUGH,
                             rng.sample(BOUNDARY_D, 2) if quick else BOUNDARY_D)
+    cov += gen_offset_cov(rng, 8 if quick else 80, 4 if quick else 40)
     for j, c in enumerate(cov):
         key = "cov:" + ("exact" if c["exact"] else "tolerance")
         add(c, key)
+        if is_offset_style(c):
+            hist["large-offset:" + c["style"]] = hist.get("large-offset:" + c["style"], 0) + 1
         if j % every == 0:
             add(scaled_copy(c, rand_scale(rng)), key)
     for j, c in enumerate(gen_probe_cases(rng, 6 if quick else 40)):
@@ -986,8 +1097,11 @@ def build_cases(ctx, quick):
         c["agree"] = (j % 2 == 0) and c["N"] <= 24
         embs.append(c)
     embs += gen_boundary_emb(rng, [256, 257] if quick else BOUNDARY_N_THOROUGH, wide=not quick)
+    embs += gen_offset_emb(rng, 8 if quick else 64)
     for j, c in enumerate(embs):
         add(c, "api:pca-dense")
+        if is_offset_style(c):
+            hist["large-offset:" + c["style"]] = hist.get("large-offset:" + c["style"], 0) + 1
         if j % every == 0:
             add(scaled_copy(c, rand_scale(rng)), "api:pca-dense")
     for j in range(n_rand):
@@ -1021,9 +1135,10 @@ def run(ctx):
                         extra.append({"kind": "COV", "D": 2, "N": 2, "X": [[a, b], [c2, d2]], "style": "int",
                                       "exact": True})
         extra += gen_boundary_cov(ctx.rng, BOUNDARY_N_THOROUGH, BOUNDARY_D)
+        extra += gen_offset_cov(ctx.rng, 40, 20)
         extra += [scaled_copy(c, rand_scale(ctx.rng)) for c in extra if ctx.rng.random() < 0.5]
         embs = [gen_emb(ctx.rng, "dense", "small" if j % 8 else "large") for j in range(150)]
-        embs += gen_boundary_emb(ctx.rng, [256, 257]) + gen_boundary_emb(ctx.rng, [])
+        embs += gen_boundary_emb(ctx.rng, [256, 257]) + gen_boundary_emb(ctx.rng, []) + gen_offset_emb(ctx.rng, 24)
         extra += embs + [scaled_copy(c, rand_scale(ctx.rng)) for c in embs if ctx.rng.random() < 0.5]
         for j in range(30):
             c = gen_emb(ctx.rng, "randomized")
@@ -1083,6 +1198,11 @@ def run(ctx):
              "D > N, N = 2, zero-variance feature, identically zero feature); every second case of every stream also as "
              "a scaled copy (data or probed matrix times 2^k, k in +-{10, 30, 40, 52, 60}; randomized solver: k > 0 only, "
              "its absolute cut-off at tiny scales is known finding F36), evaluated after undoing the exact scaling.  "
+             "Wave 3: data with a large common offset (k * 2^E + correlated spread in [-3/4, 3/4], E in 20, 30, 40, and "
+             "mixed per-feature offsets): covariance exact stream (dyadic grid on which the mean, x - mean, the products "
+             "and the partial sums are exact: implementation == model), covariance tolerance stream (arbitrary doubles, "
+             "any N) and PCA dense; verdicts relative to the SPREAD about the mean (8 (N + 4) 2^-53 * max_ab 1/N sum "
+             "|x_a - m_a| |x_b - m_b| + squared rounding error of the computed mean), never to |x|^2.  "
              "non-trivial = "
              "COV/EMB with N >= 2 and D >= 2, or a probe; distinct by hash of the case.",
         samples=samples,
